@@ -26,7 +26,7 @@ impl EmmyLuaEmitter {
 
     /// Write a doc comment line: `--- text`.
     pub fn write_doc_comment(&mut self, text: &str) {
-        for line in text.lines() {
+        for line in doc_lines(text) {
             let _ = writeln!(self.output, "--- {}", line);
         }
     }
@@ -58,7 +58,7 @@ impl EmmyLuaEmitter {
     pub fn write_field(&mut self, name: &str, ty: &str, description: Option<&str>) {
         // Emit description above the field
         if let Some(desc) = description {
-            for line in desc.lines() {
+            for line in doc_lines(desc) {
                 let _ = writeln!(self.output, "--- {}", line);
             }
         }
@@ -76,7 +76,7 @@ impl EmmyLuaEmitter {
     /// Write `---@field [key_type] value_type` (index signature) with the description above it.
     pub fn write_index_field(&mut self, key_ty: &str, value_ty: &str, description: Option<&str>) {
         if let Some(desc) = description {
-            for line in desc.lines() {
+            for line in doc_lines(desc) {
                 let _ = writeln!(self.output, "--- {}", line);
             }
         }
@@ -151,9 +151,16 @@ pub(crate) fn escape_lua_string(text: &str) -> String {
 }
 
 /// Check if a field name needs bracket notation (contains special characters).
+/// The lines of a schema text. Unlike `str::lines` a lone `\r` ends a line too: the Lua lexer treats it
+/// as a line break, so the rest of the text would otherwise fall out of the comment.
+fn doc_lines(text: &str) -> impl Iterator<Item = &str> {
+    text.split('\n')
+        .flat_map(|line| line.strip_suffix('\r').unwrap_or(line).split('\r'))
+}
+
 /// A `# description` after an alias variant has to stay on the variant's line.
 fn single_line(text: &str) -> String {
-    text.lines()
+    doc_lines(text)
         .map(str::trim)
         .filter(|line| !line.is_empty())
         .collect::<Vec<_>>()
